@@ -497,6 +497,12 @@ type ShotResult struct {
 // RunOneShot runs script (which must end with check-sat / get-value commands)
 // under a timeout.
 func RunOneShot(o OneShot, script string, timeout time.Duration) ShotResult {
+	ctx, cancel := context.WithTimeout(context.Background(), timeout)
+	defer cancel()
+	return runOneShotCtx(ctx, o, script)
+}
+
+func runOneShotCtx(ctx context.Context, o OneShot, script string) ShotResult {
 	f, err := os.CreateTemp("", "vq-*.smt2")
 	if err != nil {
 		return ShotResult{Solver: o.Name, Err: err}
@@ -504,8 +510,6 @@ func RunOneShot(o OneShot, script string, timeout time.Duration) ShotResult {
 	defer os.Remove(f.Name())
 	f.WriteString(script)
 	f.Close()
-	ctx, cancel := context.WithTimeout(context.Background(), timeout)
-	defer cancel()
 	t0 := time.Now()
 	args := append(append([]string{}, o.Argv[1:]...), f.Name())
 	out, err := exec.CommandContext(ctx, o.Argv[0], args...).CombinedOutput()
@@ -527,12 +531,33 @@ func RunOneShot(o OneShot, script string, timeout time.Duration) ShotResult {
 	default:
 		r.Res = Unknown
 		if ctx.Err() != nil {
-			r.Err = fmt.Errorf("%s: timeout after %v", o.Name, timeout)
+			r.Err = fmt.Errorf("%s: timeout/cancelled", o.Name)
 		} else if err != nil && first != "unknown" {
 			r.Err = fmt.Errorf("%s: %v: %s", o.Name, err, s)
 		}
 	}
 	return r
+}
+
+// Race runs the solvers in parallel and returns the first definite answer
+// (the others are cancelled).
+func Race(solvers []OneShot, script string, timeout time.Duration) ShotResult {
+	ctx, cancel := context.WithTimeout(context.Background(), timeout)
+	defer cancel()
+	ch := make(chan ShotResult, len(solvers))
+	for _, s := range solvers {
+		s := s
+		go func() { ch <- runOneShotCtx(ctx, s, script) }()
+	}
+	last := ShotResult{Res: Unknown}
+	for range solvers {
+		r := <-ch
+		if r.Err == nil && r.Res != Unknown {
+			return r
+		}
+		last = r
+	}
+	return last
 }
 
 // Portfolio races the given solvers on the script; the first definite answer
